@@ -181,7 +181,10 @@ def run(ctx):
                 "two random chunkings under 7 root modes; also standard-unslicer streams on the real RootUnslicer; fixed keepalive witnesses "
                 "(several PINGs per packet, PINGs in every receiver state, PING before / after each kind of protocol violation) under every "
                 "two-way cut; fixed connection-age witnesses (receivers connected before / after a RemoteCopy class or an unslicer is "
-                "registered, three root unslicers, same bytes); "
+                "registered, three root unslicers, same bytes); fixed error-report witnesses (protocol violation of four kinds while the "
+                "location text holds a peer-chosen dict key of 2-, 3-, 4-byte and mixed-width characters, sized below / between / above the "
+                "character and byte limits, one and two levels deep, under two-way cuts and 64-byte packets) and sendError on text / bytes "
+                "messages of every character width at every edge of the limit, each ERROR token re-read by a peer receiver; "
                 "non-trivial = distinct (stream, chunking) in which at least one token was completed")
     ctx.assumptions = ["two unslicer semantics are compared with the model callback by callback: the policy unslicers of harness/c07_impl.py and the "
                        "standard unslicers (root, list, tuple, dict, set, immutable-set, unicode, boolean, none) under real constraint objects; "
@@ -192,7 +195,8 @@ def run(ctx):
                        "exists (opentype check, registry lookup, setConstraint's AssertionError) is modelled and compared on fixed witnesses",
                        "the generic vocabulary-unchanged theorems hold for unslicer semantics whose callbacks cannot reach the protocol object; "
                        "the real set-vocab / add-vocab unslicers can (replaceIncomingVocabulary) and are outside every instance model",
-                       "the text of ERROR messages is not compared (its length rule and the order of the writes are translated and proved)",
+                       "the text of ERROR messages is not compared beyond its location part (its length rule in BYTES and the order of the writes are translated and "
+                       "proved; the direct oracle measures the token on the wire for non-ASCII text and has a peer receiver re-read it)",
                        "the Coq models take the unslicer semantics (what the registries of opentypes and RemoteCopy names allow) as ONE parameter shared by "
                        "all receivers; that the real root unslicers consult the process-wide registries when the tokens arrive instead of freezing "
                        "derived limits per connection is checked by the direct oracle c07_hist.connection_age only (known exception on the "
@@ -264,6 +268,7 @@ def run(ctx):
         leaf_second_token(ctx, I)
         spec_oracle(ctx, I)
         c07_hist.keepalive_replies(ctx, I)
+        error_report_oracle(ctx, I)
         send_error_oracle(ctx, I, generic_ok)
         absorbing_closer_note(ctx, I)
         if generic_ok:
@@ -487,28 +492,109 @@ def correspond_generic(ctx, model_cases):
     ctx.extra["generic_correspondence_disagreements"] = nbad
 
 
+# characters of every UTF-8 width: a message of k characters is k, 2k, 3k or 4k bytes on the wire
+SE_UNITS = [("ascii", "e"), ("2-byte", "é"), ("3-byte", "☃"), ("4-byte", "\U0001F600"), ("mixed", "aé☃\U0001F600")]
+
+
+def _error_token(data):
+    """(announced, body) when `data` starts like header + ERROR, else None"""
+    from foolscap import banana, tokens
+    j = 0
+    while j < len(data) and data[j] < 0x80:
+        j += 1
+    if data[j:j + 1] != tokens.ERROR:
+        return None
+    return (banana.b1282int(data[:j]) if j else 0), data[j + 1:]
+
+
+def _peer_reads_report(I, data):
+    """what a fresh receiver makes of the bytes: (handleError was reached with this text or None, bytes it wrote back, its receive errors)"""
+    got = []
+
+    class Peer(I.RealBanana):
+        def handleError(self, msg):
+            got.append(msg)
+            self.transport.loseConnection()
+    q = Peer()
+    esc = None
+    try:
+        q.dataReceived(data)
+    except Exception as e:
+        esc = "%s: %s" % (type(e).__name__, e)
+    back = b"".join(e[1] for e in q.vlog if e[0] == "write")
+    errs = [e[1] for e in q.vlog if e[0] == "receive-error"]
+    return (got[0] if got else None), back, errs, esc
+
+
+def send_error_messages(limit):
+    """the family: messages of every UTF-8 character width, as text and as bytes, with the CHARACTER count and the BYTE count each
+    placed below / at / above the limit and the cut position (fixed witnesses, no randomness)"""
+    out = []
+    for uname, unit in SE_UNITS:
+        w = len(unit.encode("utf-8"))
+        u = len(unit)
+        ks = set()
+        for edge in (0, 1, 2, limit - 11, limit - 10, limit - 9, limit - 1, limit, limit + 1, limit + 2, limit + 10, limit + 11, 2 * limit, 70 * limit):
+            ks.add(edge // u)               # character count at the edge
+            ks.add(-(-edge // u))
+            ks.add(edge // w)               # byte count at the edge
+            ks.add(-(-edge // w))
+            ks.add(edge // w + 1)
+        for k in sorted(ks):
+            text = unit * k
+            out.append((uname, "str", text))
+            out.append((uname, "bytes", text.encode("utf-8")))
+    return out
+
+
 def send_error_oracle(ctx, I, model_ok):
-    """Banana.sendError: whatever the message, the ERROR token that is written announces at most SIZE_LIMIT bytes (the peer refuses
-    more), announces exactly what follows, and the connection is closed after it; the length rule is the translated se_len"""
+    """Banana.sendError: whatever the message (any UTF-8 character width, text or bytes), the ERROR token that is written announces at most
+    SIZE_LIMIT BYTES (the peer refuses more), announces exactly what follows, a peer receiver takes it as an error report, and the
+    connection is closed after it; the length rule is the translated se_len of the message's byte length"""
     from foolscap import banana, tokens
     cases = []
-    for n in (0, 1, 2, 999, 1000, 1001, 1002, 1010, 1011, 2000, 70000):
-        for msg in (b"e" * n, "e" * n):
-            p = I.PolicyBanana("any")
+    failed = set()
+    for uname, ty, msg in send_error_messages(tokens.SIZE_LIMIT):
+        enc = msg if isinstance(msg, bytes) else msg.encode("utf-8")
+        n = len(enc)
+        nchars = len(enc.decode("utf-8"))
+        p = I.PolicyBanana("any")
+        esc = None
+        try:
             p.sendError(msg)
-            data = b"".join(e[1] for e in p.vlog if e[0] == "write")
-            j = 0
-            while j < len(data) and data[j] < 0x80:
-                j += 1
-            announced = banana.b1282int(data[:j]) if j else 0
-            body = data[j + 1:]
-            lost = ("lose",) in p.vlog and p.vlog[-1] == ("lose",)
-            ctx.case(["send-error", n, type(msg).__name__], nontrivial=True)
-            if data[j:j + 1] != tokens.ERROR or announced != len(body) or announced > tokens.SIZE_LIMIT or not lost or (n <= tokens.SIZE_LIMIT and body != b"e" * n):
-                ctx.fail("oracle/error-token-malformed", "sendError(%d-byte message) wrote an ERROR token announcing %d bytes followed by %d bytes (limit %d), "
-                         "connection closed afterwards: %s" % (n, announced, len(body), tokens.SIZE_LIMIT, lost),
-                         replay=dict(length=n, announced=announced, body=len(body)))
+        except Exception as e:
+            esc = "%s: %s" % (type(e).__name__, e)
+        data = b"".join(e[1] for e in p.vlog if e[0] == "write")
+        t = _error_token(data)
+        lost = ("lose",) in p.vlog and p.vlog[-1] == ("lose",)
+        ctx.case(["send-error", uname, ty, n], nontrivial=True)
+        ctx.hist("kind", "send-error")
+        announced, body = t if t else (-1, b"")
+        peer_msg, back, errs, pesc = _peer_reads_report(I, data) if t else (None, b"", [], None)
+        bad = []
+        if esc:
+            bad.append("raised " + esc)
+        if t is None:
+            bad.append("what was written is not header + ERROR: %r" % data[:30])
+        else:
+            if announced != len(body):
+                bad.append("announces %d bytes, %d follow" % (announced, len(body)))
+            if announced > tokens.SIZE_LIMIT:
+                bad.append("announces %d bytes, the limit of an ERROR token is %d" % (announced, tokens.SIZE_LIMIT))
+            if n <= tokens.SIZE_LIMIT and body != enc:
+                bad.append("a message that fits was altered")
+            if peer_msg is None or back or errs or pesc:
+                bad.append("a peer receiver does not take it as an error report (receive errors %r, answers %r, escaped %r)" % (errs, back[:60], pesc))
+        if not lost:
+            bad.append("the connection is not closed after it")
+        if bad and (uname, ty) not in failed:
+            failed.add((uname, ty))
+            ctx.fail("oracle/error-token-malformed", "sendError(%s message of %d %s characters = %d bytes): %s"
+                     % (ty, nchars, uname, n, "; ".join(bad)),
+                     replay=dict(send_error=True, unit=uname, type=ty, chars=nchars, length=n, announced=announced, body=len(body), message=list(enc[:16])))
+        if t and not esc:
             cases.append((n, announced))
+    cases = sorted(set(cases))
     if model_ok:
         try:
             (vals,) = ctx.coq_eval("C07_se_len", "Local Open Scope Z_scope.\nEval vm_compute in map se_len [%s].\n" % "; ".join(str(n) for n, _ in cases),
@@ -521,6 +607,101 @@ def send_error_oracle(ctx, I, model_ok):
             if announced != m:
                 ctx.fail("correspondence/send-error-length", "translated sendError length rule gives %d for a %d-byte message, the real method announced %d" % (m, n, announced),
                          replay=dict(length=n), has_input=False)
+
+
+def error_report_witnesses():
+    """byte streams that end in a protocol violation while the receive stack's description (Banana.describeReceive, part of the
+    report's text) holds peer-chosen non-ASCII text: the key of the dict entry being filled in, at one or two nesting levels, for every
+    UTF-8 character width, sized so that the report is short / has fewer characters than the limit but more bytes / has more of both"""
+    def ukey(text):
+        return tok(OPEN, 0) + S(b"unicode") + S(text.encode("utf-8")) + tok(CLOSE, 0)
+    enders = [("old-list-token", tok(LIST, 3)), ("invalid-type-byte", b"\x01\x8b"), ("close-mismatch", tok(CLOSE, 77)),
+              ("oversized-header", b"\x7f" * 70)]
+    out = []
+    for uname, unit in SE_UNITS[1:]:
+        w = len(unit.encode("utf-8"))
+        for label, ks in (("short", [3]), ("chars-fit-bytes-do-not", [1000 // w + 5]), ("two-levels", [300 // len(unit), 300 // len(unit)]),
+                          ("chars-over", [1100 // len(unit)])):
+            for ename, ender in (enders if label == "chars-fit-bytes-do-not" else enders[:1]):
+                s = b""
+                for d, k in enumerate(ks):
+                    s += tok(OPEN, d) + S(b"dict") + ukey(unit * k)
+                s += ender
+                tail = tok(INT, 9) + tok(CLOSE, 0) + tok(INT, 42)
+                out.append(dict(name="%s/%s/%s" % (uname, label, ename), stream=s, tail=tail))
+    return out
+
+
+def _run_error_report(I, s, tail, cs):
+    """feed s in packets cs, then tail; -> (what is wrong with the error report, bytes written, escaped exception)"""
+    from foolscap import tokens
+    p = I.RealBanana()
+    esc = None
+    pos = 0
+    try:
+        for c in cs:
+            p.dataReceived(s[pos:pos + c])
+            pos += c
+        before_tail = len(p.vlog)
+        p.dataReceived(tail)
+    except Exception as e:
+        esc = "%s: %s" % (type(e).__name__, e)
+        before_tail = len(p.vlog)
+    data = b"".join(e[1] for e in p.vlog if e[0] == "write")
+    t = _error_token(data)
+    bad = []
+    if not p.connectionAbandoned or [e for e in p.vlog if e[0] == "lose"] != [("lose",)]:
+        bad.append("the connection is not closed exactly once (abandoned=%s)" % bool(p.connectionAbandoned))
+    if any(e[0] in ("deliver", "violation") for e in p.vlog) or len(p.vlog) != before_tail:
+        bad.append("something was delivered / reported / answered besides the error: %r" % [e[0] for e in p.vlog])
+    if t is None:
+        bad.append("what was written is not one ERROR token: %r" % data[:30])
+    else:
+        announced, body = t
+        if announced != len(body):
+            bad.append("the ERROR token announces %d bytes, %d follow" % (announced, len(body)))
+        if announced > tokens.SIZE_LIMIT:
+            bad.append("the ERROR token announces %d bytes, the specification (and the peer's own tokenizer) allows %d" % (announced, tokens.SIZE_LIMIT))
+        peer_msg, back, errs, pesc = _peer_reads_report(I, data)
+        if peer_msg is None or back or errs or pesc:
+            bad.append("a peer receiver does not take it as an error report (receive errors %r, answers %r, escaped %r)" % (errs, back[:60], pesc))
+    return bad, data, esc
+
+
+def error_report_oracle(ctx, I):
+    """'a protocol violation makes the receiver send an error, close the connection and ignore all further input', and what it sends
+    agrees with the token specification: exactly one ERROR token of at most SIZE_LIMIT bytes that announces what follows, acceptable to a
+    peer receiver -- whatever text the location of the failure contains, for every packetisation"""
+    for w in error_report_witnesses():
+        s, tail = w["stream"], w["tail"]
+        n = len(s)
+        cuts = [[n]] + [[i, n - i] for i in sorted(set(list(range(1, min(n, 24))) + [n // 2] + list(range(max(1, n - 8), n))))]
+        cuts.append([64] * (n // 64) + ([n % 64] if n % 64 else []))
+        if ctx.tier != "quick":
+            cuts.append([1] * n)
+            cuts += [[i, n - i] for i in range(24, n - 8, 7)]
+        ref = None
+        for cs in cuts:
+            bad, data, esc = _run_error_report(I, s, tail, cs)
+            ctx.case(["error-report", w["name"], cs], nontrivial=True)
+            ctx.hist("kind", "error-report")
+            rp = dict(stream=list(s + tail), chunks=cs + [len(tail)], real=True, witness=w["name"], error_report=len(tail))
+            if esc:
+                ctx.fail("oracle/exception-escaped", "error-report witness %s: an exception escaped dataReceived: %s; packets %r" % (w["name"], esc, cs[:20]), replay=rp)
+                break
+            if bad:
+                ctx.fail("oracle/error-token-malformed", "error-report witness %s (standard unslicers): stream %r... (%d bytes) in packets %r: %s"
+                         % (w["name"], list(s[:40]), n, cs[:20], "; ".join(bad)), replay=dict(rp, written=list(data[:40]), written_len=len(data)))
+                break
+            # the location part of the report ("BananaError(in <where>)"); the rest of the text is not compared: the report of an
+            # over-long header quotes up to 265 bytes of what happens to be buffered (see notes)
+            final = data.split(b"): ")[0]
+            if ref is None:
+                ref = final
+            elif final != ref:
+                ctx.fail("oracle/chunk-dependent", "error-report witness %s: where the error report says the failure happened depends on the packetisation: one packet %r..., packets %r -> %r..."
+                         % (w["name"], ref[:60], cs[:20], final[:60]), replay=dict(rp, whole=list(ref[:80]), chunked=list(final[:80])))
+                break
 
 
 def absorbing_closer_note(ctx, I):
@@ -935,6 +1116,36 @@ def replay(ctx, data):
     from harness import c07_impl as I
     ctx.rule = "replay of one recorded case"
     rp = data.get("replay") or {}
+    if rp.get("send_error"):
+        unit = dict(SE_UNITS)[rp["unit"]]
+        msg = unit * (rp["chars"] // len(unit))
+        with I.E_quiet():
+            p = I.PolicyBanana("any")
+            p.sendError(msg if rp["type"] == "str" else msg.encode("utf-8"))
+        t = _error_token(b"".join(e[1] for e in p.vlog if e[0] == "write"))
+        print("sendError(%s of %d %s characters, %d bytes) ->" % (rp["type"], len(msg), rp["unit"], len(msg.encode("utf-8"))),
+              "not an ERROR token" if t is None else "ERROR token announcing %d bytes, %d follow" % (t[0], len(t[1])))
+        ctx.case(["send-error", rp["unit"], rp["type"], rp["chars"]])
+        from foolscap import tokens
+        if t is None or t[0] != len(t[1]) or t[0] > tokens.SIZE_LIMIT:
+            ctx.fail("oracle/error-token-malformed", "sendError wrote %r" % (t and (t[0], len(t[1])),), replay=rp)
+        ctx.distinct.add(b"x"); ctx.nontrivial.update([b"a", b"b"])
+        return
+    if rp.get("error_report"):
+        full = bytes(rp["stream"])
+        k = rp["error_report"]
+        s, tail = full[:-k], full[-k:]
+        with I.E_quiet():
+            res = [(c, _run_error_report(I, s, tail, c)) for c in ([len(s)], rp["chunks"][:-1])]
+        for c, (bad, data, esc) in res:
+            print("packets", c[:20], "-> wrote %d bytes %r...; problems: %r; escaped: %r" % (len(data), data[:40], bad, esc))
+            ctx.case(["error-report", list(full), c])
+            if esc:
+                ctx.fail("oracle/exception-escaped", "exception escaped: %s" % esc, replay=rp)
+            elif bad:
+                ctx.fail("oracle/error-token-malformed", "; ".join(bad), replay=rp)
+        ctx.distinct.add(b"x"); ctx.nontrivial.update([b"a", b"b"])
+        return
     stream = bytes(rp["stream"])
     cs = rp.get("chunks") or [len(stream)]
     mode = rp.get("rootmode", "any")
